@@ -335,7 +335,9 @@ C11RespCauses(n, r) ==
        ELSE IF e.answer # "ok" \/ Outcome(r) # "ok"
        THEN (IF Outcome(r) = "ok" THEN {"ok-after-failed-refresh"} ELSE {})
             \* the stale session is removed whatever the denial looks like (a removal that was attempted and failed counts: nothing more can be done)
-            \cup (IF Outcome(r) # "ok" /\ Len(Ops(n, "RemoveSession")) = 0 /\ ~StoreFaulted(n) THEN {"stale-session-not-removed"} ELSE {})
+            \* (a refresh that succeeded and was stored, followed by the denial of a later filter of the chain, ends nothing)
+            \cup (IF Outcome(r) # "ok" /\ (e.answer # "ok" \/ Len(w) = 0) /\ Len(Ops(n, "RemoveSession")) = 0 /\ ~StoreFaulted(n)
+                  THEN {"stale-session-not-removed"} ELSE {})
        ELSE {}
 
 ---------------------------------------------------------------------------
